@@ -36,6 +36,12 @@ class Decomp(Suite):
                 if t["n"] >= 3 and rng.random() < 0.6:
                     d = rng.choice(["sort", "copy-edit", f"redirect:{rng.randrange(1, t['n'])}"])
                     out.append({"class": t["class"] + "/derived-" + d.split(":")[0], "tree": t, "derive": d})
+        # small scope, exhaustively: every tree with the root first on up to 4 (5) nodes
+        for n in range(1, (6 if tier == "thorough" or widen else 5)):
+            for j, pids in enumerate(gen.all_root0_trees(n)):
+                t = {"class": f"all-n{n}", "n": n, "pids": pids, "types": [[1, 3, 0][j % 3]] + [3] * (n - 1),
+                     "xyz": [[float(i), float((i * i + j) % 7), float(i % 2)] for i in range(n)], "r": [1.0] * n}
+                out.append({"class": f"all-n{n}", "tree": t})
         # the shape classes the property names, with guaranteed quota
         for pids in ([-1], [-1, 0], [-1, 0, 1], [-1, 0, 1, 2, 3], [-1, 0, 0], [-1, 0, 0, 0], [-1, 0, 1, 1], [-1, 0, 1, 2, 2, 2],
                      [-1, 2, 0, 2], [-1, 0, 1, 1, 3, 3]):
